@@ -89,6 +89,7 @@ let () =
         let (args, cff, tail) = split [] rest in
         let cf = String.sub cff 2 (String.length cff - 2) in
         let lf = List.nth tail 0 and bf = List.nth tail 1 and nf = List.nth tail 2 in
+        let hx_tr (l : n list) : string = hx l in ignore hx_tr;
         let impl = List.nth tail (List.length tail - 1) in
         let lso = layouts_of lf in
         let ls = somes lso in
@@ -123,7 +124,15 @@ let () =
                 set (List.fold_left (fun s b -> srv_batch_put s (pairs b)) st bats); "err injected"
               end else
               (match batch_put st [(l0, all_served)] kvs with
-               | Some (s, true) -> set s; cmp_batches (put_chunks kvs) (List.map fst kvs) "ok"
+               | Some (s, true) -> set s;
+                   (* the requests of a warm call: the literal three-slice chunker over every region group *)
+                   if not exact then "ok" else
+                   let want = List.sort compare (List.concat_map (fun g ->
+                     List.map (fun b -> String.concat "," (List.map2 (fun (k, v) t -> hx k ^ ":" ^ hx v ^ ":" ^ string_of_int (int_of_n t))
+                                            (List.combine b.b_keys b.b_vals) b.b_ttls)) (append_batches kvs (snd g)))
+                     (group_keys l0 (List.map fst kvs))) in
+                   let got = List.sort compare bats in
+                   if got = want then "ok" else "model-batches " ^ String.concat ";" want
                | _ -> "model-none")
           | "bget" ->
               (match batch_get st [(l0, all_served)] (keys_of (arg 0)) with
@@ -146,11 +155,13 @@ let () =
               (match run_loop ls (fun l -> drange_loop st l (bx (arg 0)) (bx (arg 1))) with
                | Ok s -> set s; "ok" | Error e -> e)
           | "scan" ->
-              (match run_loop ls (fun l -> scan st l (bx (arg 0)) (bx (arg 1)) (nat_of_int (int_of_string (arg 2)))) with
-               | Ok ps -> kvres ps | Error e -> e)
+              (match run_loop ls (fun l -> match client_scan st l (bx (arg 0)) (bx (arg 1)) (nat_of_int (int_of_string (arg 2))) with
+                                          | None -> Some None | Some None -> None | Some (Some ps) -> Some (Some ps)) with
+               | Ok (Some ps) -> kvres ps | Ok None -> "err limit" | Error e -> e)
           | "rscan" ->
-              (match run_loop ls (fun l -> rscan st l (bx (arg 0)) (bx (arg 1)) (nat_of_int (int_of_string (arg 2)))) with
-               | Ok ps -> kvres ps | Error e -> e)
+              (match run_loop ls (fun l -> match client_rscan st l (bx (arg 0)) (bx (arg 1)) (nat_of_int (int_of_string (arg 2))) with
+                                          | None -> Some None | Some None -> None | Some (Some ps) -> Some (Some ps)) with
+               | Ok (Some ps) -> kvres ps | Ok None -> "err limit" | Error e -> e)
           | "cksum" ->
               (* handleKvRawChecksum reads column family CF_DEFAULT whatever the client says *)
               (match run_loop ls (fun l -> cksum digest (get_st "CF_DEFAULT") l (bx (arg 0)) (bx (arg 1))) with
